@@ -10,6 +10,7 @@ XW = "dendropy.dataio.nexuswriter.NexusWriter"
 XR = "dendropy.dataio.nexusreader.NexusReader"
 NXW = "dendropy.dataio.nexmlwriter.NexmlWriter"
 NXR = "dendropy.dataio.nexmlreader"
+DIO = "dendropy.dataio."
 WRITER_FUNCS = ["_write", "_write_taxa_block", "_set_and_write_translate_block", "_write_trees_block", "_write_char_block",
                 "_compose_format_terms", "_write_block_title", "_write_link_to_taxa_block", "_write_character_subsets"]
 KEYWORD_EXEMPT = {
@@ -448,3 +449,101 @@ def run(index, rep, tier):
                       "the NeXML writer marks a matrix as nex:%s... but the reader dispatches only on %s" % (t, sorted(x for x in rtypes if x)))
         rep.check("Seqs" in markups and "Seqs" in rmark and "Cells" in markups, "R09.6", wcm.qualname, "markup suffixes %s / reader %s" % (sorted(markups), sorted(x for x in rmark if x)), fn_where(wcm),
                   "markup suffixes Seqs/Cells agree (reader treats non-Seqs as Cells)", "the Seqs/Cells markup suffixes of writer and reader disagree")
+
+    # ---- R09.14 a cell that is zero is still a cell
+    with rep.section("R09.14"):
+        rep.rule("R09.14", "a cell that is zero is still a cell: in the matrix writers a value obtained by iterating a sequence (directly, through enumerate() or cell_iter()) is never tested by truthiness - a continuous value of 0 / 0.0 is data")
+        ncell = 0
+        for m in (DIO + "nexmlwriter", DIO + "nexuswriter", DIO + "phylipwriter", DIO + "fastawriter"):
+            for f in index.functions_in_module(m):
+                # sequences: <x>[taxon] of a matrix, loop targets of matrix.items()/values()
+                seqs = set()
+                for a in walk_no_nested(f.node):
+                    if isinstance(a, ast.Assign) and isinstance(a.targets[0], ast.Name) and isinstance(a.value, ast.Subscript) and "matrix" in norm(a.value.value):
+                        seqs.add(a.targets[0].id)
+                    if isinstance(a, ast.For) and isinstance(a.iter, ast.Call) and isinstance(a.iter.func, ast.Attribute) and "matrix" in norm(a.iter.func.value):
+                        if a.iter.func.attr == "items" and isinstance(a.target, ast.Tuple) and len(a.target.elts) == 2 and isinstance(a.target.elts[1], ast.Name):
+                            seqs.add(a.target.elts[1].id)
+                        elif a.iter.func.attr in ("values", "sequences", "vectors", "sequence_iter") and isinstance(a.target, ast.Name):
+                            seqs.add(a.target.id)
+                cells = set()
+                loops = [x for x in ast.walk(f.node) if isinstance(x, (ast.For, ast.comprehension))]
+                for l in loops:
+                    it, tg = l.iter, l.target
+                    en = isinstance(it, ast.Call) and isinstance(it.func, ast.Name) and it.func.id == "enumerate" and it.args
+                    if en:
+                        it = it.args[0]
+                        tg = tg.elts[1] if isinstance(tg, ast.Tuple) and len(tg.elts) == 2 else None
+                    if tg is None:
+                        continue
+                    base = it.func.value if isinstance(it, ast.Call) and isinstance(it.func, ast.Attribute) and it.func.attr in ("cell_iter", "values", "__iter__") else it
+                    if not (isinstance(base, ast.Name) and base.id in seqs):
+                        continue
+                    if isinstance(it, ast.Call) and it.func.attr == "cell_iter":
+                        tg = tg.elts[0] if isinstance(tg, ast.Tuple) and tg.elts else None
+                    if isinstance(tg, ast.Name):
+                        cells.add(tg.id)
+                if not cells:
+                    continue
+                g = cfg_of(f)
+                for t in g.nodes:
+                    if t.kind == "test" and isinstance(t.ast, ast.Name) and t.ast.id in cells:
+                        rep.check(False, "R09.14", f.qualname, "matrix cell tested by truthiness", fn_where(f, t.stmt), "",
+                                  "%s tests the cell value `%s` by truthiness (`%s`): state identities are always true, but a continuous matrix holds numbers and a cell of exactly 0 / 0.0 is then skipped - the row is written one cell short and every later value moves one column to the left on read-back" % (f.qualname, t.ast.id, norm_stmt(t.stmt)[:50]))
+                ncell += len(cells)
+        rep.floor("R09.14", "cell variables in the matrix writers", 3, ncell)
+
+    # ---- R09.15 the smallest PHYLIP matrix the writer emits is accepted by the reader
+    with rep.section("R09.15"):
+        rep.rule("R09.15", "a 1xN matrix survives PHYLIP: the writer emits header + one newline-terminated row, and the number of items the reader's line splitter makes of that text passes the reader's minimum-lines guard")
+        pw = index.function(DIO + "phylipwriter.PhylipWriter._write_char_matrix")
+        writes = [c for c in calls_in(pw.node) if isinstance(c.func, ast.Attribute) and c.func.attr == "write" and c.args]
+        fmts = []
+        for c in writes:
+            a0 = c.args[0]
+            lit = a0.left if isinstance(a0, ast.BinOp) and isinstance(a0.op, ast.Mod) else (a0.func.value if isinstance(a0, ast.Call) and isinstance(a0.func, ast.Attribute) and a0.func.attr == "format" else a0)
+            if not (isinstance(lit, ast.Constant) and isinstance(lit.value, str)):
+                raise AnalysisError("R09.15: a PHYLIP row is written from a non-literal template")
+            fmts.append(lit.value)
+        if len(fmts) < 2 or not all(x.endswith("\n") and x.count("\n") == 1 for x in fmts):
+            raise AnalysisError("R09.15: PHYLIP writer rows are not single newline-terminated lines (%s)" % fmts)
+        k = 2       # header + one row, each newline-terminated
+        gl = index.function("dendropy.utility.filesys.get_lines")
+        rets = [r for r in walk_no_nested(gl.node) if isinstance(r, ast.Return) and r.value is not None]
+        if len(rets) != 1:
+            raise AnalysisError("R09.15: get_lines return not recognised")
+        rv = rets[0].value
+        if isinstance(rv, ast.Name):
+            ds = [a for a in walk_no_nested(gl.node) if isinstance(a, ast.Assign) and norm(a.targets[0]) == rv.id]
+            if len(ds) != 1:
+                raise AnalysisError("R09.15: get_lines return not recognised")
+            rv = ds[0].value
+        items = None
+        how = norm(rv)[:50]
+        if isinstance(rv, ast.Call):
+            fn = norm(rv.func)
+            if fn == "re.split" and rv.args and isinstance(rv.args[0], ast.Constant) and "\\n" in repr(rv.args[0].value):
+                items = k + 1       # the text ends with a terminator: a trailing empty item
+            elif isinstance(rv.func, ast.Attribute) and rv.func.attr == "split" and rv.args and isinstance(rv.args[0], ast.Constant) and rv.args[0].value in ("\n", "\r\n"):
+                items = k + 1
+            elif isinstance(rv.func, ast.Attribute) and rv.func.attr in ("splitlines", "readlines"):
+                items = k
+            elif fn == "list":
+                items = k
+        if items is None:
+            raise AnalysisError("R09.15: line splitting `%s` in get_lines is not one of the modelled forms" % how)
+        pr = index.function(DIO + "phylipreader.PhylipReader._read")
+        g = cfg_of(pr)
+        nguard = 0
+        for t in g.nodes:
+            if t.kind == "test" and isinstance(t.ast, ast.Compare) and len(t.ast.ops) == 1 and norm(t.ast.left) == "len(lines)" and isinstance(t.ast.comparators[0], ast.Constant) and isinstance(t.ast.comparators[0].value, int):
+                c = t.ast.comparators[0].value
+                op = type(t.ast.ops[0]).__name__
+                holds = {"Eq": items == c, "NotEq": items != c, "Lt": items < c, "LtE": items <= c, "Gt": items > c, "GtE": items >= c}.get(op)
+                if holds is None:
+                    continue
+                nguard += 1
+                r_ = raises_in_branch(g, t, "t") if holds else None
+                rep.check(r_ is None, "R09.15", pr.qualname, "a one-row PHYLIP file fails the line-count guard `%s`" % norm(t.ast), fn_where(pr, t.stmt), "guard `%s` admits the %d items get_lines makes of header + one row" % (norm(t.ast), items),
+                          "the PHYLIP writer emits header + one newline-terminated row for a 1xN matrix; get_lines (`%s`) turns that text into %d items, and PhylipReader._read refuses under `%s`: every single-sequence matrix written to PHYLIP fails to read back" % (how, items, norm(t.ast)))
+        rep.floor("R09.15", "line-count guards in PhylipReader._read", 1, nguard)
